@@ -746,7 +746,7 @@ class Interp:
                 if got is not None:
                     return dedupe(got)
             v = self.domain.load_attr(["<comprehension>", e], st, fr)
-            if v is None and getattr(self.domain, "strict_calls", False) and any(isinstance(n_, ast.Call) for n_ in ast.walk(e)):
+            if v is None and getattr(self.domain, "strict_calls", False) and getattr(self.domain, "strict_comprehensions", True) and any(isinstance(n_, ast.Call) for n_ in ast.walk(e)):
                 # (its element expression calls things: giving up on it silently would lose what those calls do)
                 raise Undecided(f"the comprehension at line {getattr(e, 'lineno', '?')} of {fr.name} iterates something the analysis cannot enumerate")
             return [val(TOP if v is None else v, st)]
